@@ -64,6 +64,7 @@ func runLinkedMapOrder[K comparable](c *core.Ctx, d *Dom[K]) {
 	var order []K
 	cur := map[K]int{}
 	val := 0
+	_, floatKeys := any(*new(K)).(float64)
 	check := func() {
 		if !c.Observe() {
 			return
@@ -77,7 +78,7 @@ func runLinkedMapOrder[K comparable](c *core.Ctx, d *Dom[K]) {
 			c.Fail("order", "values-length", "%s.Values() has %d entries for %d keys", name, len(vs), len(order))
 		}
 		for i, k := range order {
-			if vs[i] != cur[k] {
+			if k == k && vs[i] != cur[k] { // (the value listed for a NaN key, which no lookup can reach, is not constrained)
 				c.Fail("order", "values", "%s.Values()[%d] = %d, the value of the %d-th inserted key %v is %d", name, i, vs[i], i, k, cur[k])
 			}
 		}
@@ -85,7 +86,7 @@ func runLinkedMapOrder[K comparable](c *core.Ctx, d *Dom[K]) {
 		ruin(vs)
 		i := 0
 		for it := m.Iterator(); it.Next(); i++ {
-			if i >= len(order) || it.Key() != order[i] || it.Value() != cur[order[i]] {
+			if i >= len(order) || !identical(it.Key(), order[i]) || (order[i] == order[i] && it.Value() != cur[order[i]]) {
 				c.Fail("order", "iterator", "%s iterator yields (%v,%v) at step %d, insertion order is %s", name, it.Key(), it.Value(), i, short(order))
 			}
 		}
@@ -94,13 +95,17 @@ func runLinkedMapOrder[K comparable](c *core.Ctx, d *Dom[K]) {
 		}
 		i = 0
 		m.Each(func(k K, v int) {
-			if i >= len(order) || k != order[i] || v != cur[order[i]] {
+			if i >= len(order) || !identical(k, order[i]) || (k == k && v != cur[order[i]]) {
 				c.Fail("order", "each", "%s.Each visits (%v,%v) at step %d, insertion order is %s", name, k, v, i, short(order))
 			}
 			i++
 		})
 		if i != len(order) {
 			c.Fail("order", "each-length", "%s.Each visits %d of %d keys", name, i, len(order))
+		}
+		if floatKeys {
+			c.Count("obs:linked-order", 1)
+			return // encoding/json has no object-key form for floats
 		}
 		c.Begin(name, "ToJSON")
 		data, err := m.ToJSON()
@@ -145,7 +150,7 @@ func runLinkedMapOrder[K comparable](c *core.Ctx, d *Dom[K]) {
 			val++
 			c.Begin(name, "Put", k, val)
 			m.Put(k, val)
-			if _, ok := cur[k]; !ok {
+			if _, ok := cur[k]; !ok { // (a NaN key is never found again: every Put of it inserts a new key)
 				order = append(order, k)
 				c.Count("linked:put-new", 1)
 			} else {
@@ -171,6 +176,9 @@ func runLinkedMapOrder[K comparable](c *core.Ctx, d *Dom[K]) {
 				continue
 			}
 			k := order[r.Intn(len(order))]
+			if k != k {
+				continue // NaN: not removable
+			}
 			c.Begin(name, "Remove", k)
 			m.Remove(k)
 			order = slices.Delete(order, slices.Index(order, k), slices.Index(order, k)+1)
@@ -222,7 +230,7 @@ func runLinkedSetOrder[T comparable](c *core.Ctx, d *Dom[T]) {
 		i := 0
 		it := s.Iterator()
 		for it.Next() {
-			if i >= len(order) || it.Value() != order[i] || it.Index() != i {
+			if i >= len(order) || !identical(it.Value(), order[i]) || it.Index() != i {
 				c.Fail("order", "iterator", "%s iterator yields (%d,%v) at step %d, insertion order is %s", name, it.Index(), it.Value(), i, short(order))
 			}
 			i++
@@ -232,13 +240,19 @@ func runLinkedSetOrder[T comparable](c *core.Ctx, d *Dom[T]) {
 		}
 		i = 0
 		s.Each(func(idx int, v T) {
-			if i >= len(order) || v != order[i] || idx != i {
+			if i >= len(order) || !identical(v, order[i]) || idx != i {
 				c.Fail("order", "each", "%s.Each visits (%d,%v) at step %d, insertion order is %s", name, idx, v, i, short(order))
 			}
 			i++
 		})
 		if i != len(order) {
 			c.Fail("order", "each-length", "%s.Each visits %d of %d members", name, i, len(order))
+		}
+		for _, v := range order {
+			if f, ok := any(v).(float64); ok && (f != f || f > 1e308 || f < -1e308) {
+				c.Count("obs:linked-order", 1)
+				return // encoding/json refuses NaN and the infinities
+			}
 		}
 		c.Begin(name, "ToJSON")
 		data, err := s.ToJSON()
@@ -307,6 +321,9 @@ func runLinkedSetOrder[T comparable](c *core.Ctx, d *Dom[T]) {
 				continue
 			}
 			v := order[r.Intn(len(order))]
+			if v != v {
+				continue // NaN: not removable
+			}
 			c.Begin(name, "Remove", []T{v})
 			s.Remove(v)
 			order = slices.Delete(order, slices.Index(order, v), slices.Index(order, v)+1)
@@ -337,6 +354,17 @@ func runC09(c *core.Ctx) {
 		}
 		return
 	}
+	if c.Index%23 == 5 {
+		// float members/keys: every NaN is a member of its own (== never finds
+		// it again), which no removal of OTHER members may disturb
+		c.Count("linked:float-cases", 1)
+		if c.Index%2 == 0 {
+			runLinkedMapOrder(c, FKeyDom(c.R.Range(3, 10)))
+		} else {
+			runLinkedSetOrder(c, FKeyDom(c.R.Range(3, 10)))
+		}
+		return
+	}
 	switch c.Index % 4 {
 	case 0:
 		runLinkedMapOrder(c, IntDom(c.R.Range(3, 12)))
@@ -364,6 +392,7 @@ func init() {
 			f.atLeast("linked:put-present", 10000)
 			f.atLeast("linked:remove-present", 10000)
 			f.atLeast("linked:reinsert", 5000)
+			f.atLeast("linked:float-cases", 500)
 			return f.missing
 		},
 		Files: []string{"maps/linkedhashmap/linkedhashmap.go", "maps/linkedhashmap/iterator.go", "maps/linkedhashmap/serialization.go", "sets/linkedhashset/linkedhashset.go", "sets/linkedhashset/iterator.go"},
